@@ -1550,6 +1550,10 @@ impl Vm {
         self.handling_exception = handler.has_catch_block();
         self.active_fiber_mut().current_frame_mut().unwrap().ip = handler.catch_ip;
         self.load_frame();
+        if !self.handling_exception {
+            // A catch clause takes the exception: forget where it was thrown.
+            self.active_fiber_mut().error_ip = None;
+        }
 
         Ok(())
     }
